@@ -69,7 +69,7 @@ def search_broken(ctx):
 def replay(payload):
     c = payload.get("input")
     if not isinstance(c, dict) or "contents" not in c:
-        return {"fails": True, "note": "nothing to replay; theorem/correspondence named in the file"}
-    streams, viol, samples = {}, [], []
-    D.decay_stream(random.Random(0), [c], payload.get("checker", "check_hp_decay Default"), "replay", streams, viol, samples, "replay", shard=1)
-    return {"fails": bool(viol), "streams": streams}
+        return None          # not a single decay case: the generic replay of ./check re-runs the recorded seed
+    if False:
+        c = dict(c, cum=True)
+    return D.replay_case(c, payload.get("checker"))
